@@ -446,6 +446,13 @@ package diam
 //@           (forall k CommandIndex :: (has(mux.idxMap, k) <==> old(has(mux.idxMap, k))) && mux.idxMap[k].h == old(mux.idxMap[k].h))
 //@ end
 //@
+//@ func (*ServeMux).HandleFunc(mux, cmd, handler)
+//@   property C09 C10 C12
+//@   requires mux != nil && mux.m != nil && mux.idxMap != nil && handler != nil && ALL_CMD_INDEX == allidx()
+//@   modifies mapof(mux.m), mapof(mux.idxMap), wlocked(&mux.mu)
+//@   ensures [C09] registered: cmd != "ALL" ==> has(mux.m, cmd) && mux.m[cmd].h != nil
+//@ end
+//@
 //@ func NewServeMux() (mux)
 //@   property C09
 //@   modifies
@@ -540,24 +547,37 @@ package diam
 //@   ensures [C16] on_the_given_stream: implements(writer, MultistreamWriter) ==> wstream(writer) == stream
 //@ end
 //@
+//@ # ghosts: the message most recently handed to WriteTo / WriteToStream for this writer, and how many were (what the
+//@ # state machine's contracts talk about)
+//@ ghost lastsent(io.Writer) *diam.Message
+//@ ghost sends(io.Writer) int
 //@ func (*Message).WriteToStream(m, writer, stream) (n, err)
 //@   property C07 C16
 //@   requires serialisable(m) && writer != nil && 0 <= written(writer) && written(writer) < 1<<44
-//@   modifies written(writer), wstream(writer), wlog(writer)[written(writer):written(writer)+20+sumlen(m.AVP, len(m.AVP))], bufslice(any), bytes(any), inpool(any)
+//@   modifies written(writer), wstream(writer), wlog(writer)[written(writer):written(writer)+20+sumlen(m.AVP, len(m.AVP))], bufslice(any), bytes(any), inpool(any), lastsent(writer), sends(writer)
+//@   ghostset lastsent(writer) = m
+//@   ghostset sends(writer) = old(sends(writer)) + 1
+//@   ensures message_noted: lastsent(writer) == m && sends(writer) == old(sends(writer)) + 1
+//@   ensures [C07] log_only_grows: written(writer) >= old(written(writer)) && written(writer) <= old(written(writer)) + 20 + sumlen(m.AVP, len(m.AVP))
 //@   ensures [C07] complete_on_success: err == nil ==> n == 20 + sumlen(m.AVP, len(m.AVP)) && written(writer) == old(written(writer)) + n
 //@   ensures [C16] on_the_given_stream: implements(writer, MultistreamWriter) ==> wstream(writer) == stream
 //@ end
 //@
-//@ # ghost: the message most recently handed to WriteTo for this writer (what the state machine's contracts talk about)
-//@ ghost lastsent(io.Writer) *diam.Message
 //@ func (*Message).WriteTo(m, writer) (n, err)
 //@   property C07 C16
 //@   requires serialisable(m) && writer != nil && 0 <= written(writer) && written(writer) < 1<<44
-//@   modifies written(writer), wstream(writer), wlog(writer)[written(writer):written(writer)+20+sumlen(m.AVP, len(m.AVP))], bufslice(any), bytes(any), inpool(any), lastsent(writer)
-//@   ghostset lastsent(writer) = m
-//@   ensures message_noted: lastsent(writer) == m
+//@   modifies written(writer), wstream(writer), wlog(writer)[written(writer):written(writer)+20+sumlen(m.AVP, len(m.AVP))], bufslice(any), bytes(any), inpool(any), lastsent(writer), sends(writer)
+//@   ensures message_noted: lastsent(writer) == m && sends(writer) == old(sends(writer)) + 1
+//@   ensures [C07] log_only_grows: written(writer) >= old(written(writer)) && written(writer) <= old(written(writer)) + 20 + sumlen(m.AVP, len(m.AVP))
 //@   ensures [C07] complete_on_success: err == nil ==> n == int64(20 + sumlen(m.AVP, len(m.AVP))) && written(writer) == old(written(writer)) + 20 + sumlen(m.AVP, len(m.AVP))
 //@   ensures [C16] answer_goes_to_the_request_stream: implements(writer, MultistreamWriter) ==> wstream(writer) == m.stream
+//@ end
+//@
+//@ func NewRequest(cmd, appid, dictionary) (m)
+//@   property C12 C13
+//@   modifies
+//@   ensures shape: m != nil && fresh(m) && m.Header != nil && fresh(m.Header) && len(m.AVP) == 0 && cap(m.AVP) == 0 && m.dictionary == dictionary
+//@   ensures [C12] a_request: m.Header.CommandFlags == 0x80 && m.Header.CommandCode == cmd && m.Header.ApplicationID == appid
 //@ end
 //@
 //@ # response.Write: the buffered writer (Write + Flush as one critical section) is protected by response.mu
